@@ -210,6 +210,8 @@ def snippet(z, /, t, n):
 
     if isinstance(t, u.Quantity):
         t = (t * z.sample_rate).to_value(u.one)
+        # The rounding error of this conversion grows with the offset.
+        resolution = np.maximum(resolution, 8 * np.finfo(float).eps * np.abs(t))
 
     if np.ndim(t) == 0 and abs(t - np.round(t)) <= resolution:
         t = int(np.round(t))
